@@ -48,5 +48,7 @@ def run(check: Check, repo: Repo, tier: str) -> None:
                           str_attrs=("deprecation_reason",))
     check.floor("OPTIONAL-TRUTHINESS", 3, "deprecation tests")
     from rules import exec_rules as X
+    # the selected introspection fields reach the result only if every enabled spread is collected (shared with C02)
+    X.visited_then_collected(check, repo)
     X.attr_memo(check, repo, [repo.mod(m) for m in ("utilities.get_default_value_ast", "utilities.value_to_literal", "utilities.coerce_input_value",
                                                    "utilities.introspection_from_schema", "utilities.build_client_schema", "type.introspection")])
